@@ -378,3 +378,51 @@ func TestGluedPlayAnswer(t *testing.T) {
 		t.Fatalf("record %+v next %d", rec, cam.NextFrame(0))
 	}
 }
+
+// Worked examples for the SETUP URL resolution: RFC 2326 §14.1's own pair
+// (request URL rtsp://…/twister, controls resolved below it) and the readings for
+// a base without trailing slash.
+func TestSetupURLs(t *testing.T) {
+	got := SetupURLs([]string{"rtsp://audio.example.com/twister/"}, "audio.en")
+	if !got["rtsp://audio.example.com/twister/audio.en"] { // RFC 2326 §14.1: SETUP rtsp://audio.example.com/twister/audio.en
+		t.Fatalf("%v", got)
+	}
+	got = SetupURLs([]string{"rtsp://cam/live/ch1"}, "trackID=0")
+	if !got["rtsp://cam/live/ch1/trackID=0"] || !got["rtsp://cam/live/trackID=0"] || got["rtsp://cam/live/ch1trackID=0"] || len(got) != 2 {
+		t.Fatalf("%v", got)
+	}
+	got = SetupURLs([]string{"rtsp://cam/a?x=1"}, "t")
+	if !got["rtsp://cam/a?x=1/t"] || !got["rtsp://cam/a/t?x=1"] || !got["rtsp://cam/t"] || len(got) != 3 {
+		t.Fatalf("%v", got)
+	}
+	if got = SetupURLs([]string{"rtsp://cam:554"}, "t"); !got["rtsp://cam:554/t"] || len(got) != 1 {
+		t.Fatalf("%v", got)
+	}
+	if got = SetupURLs([]string{"rtsp://cam/x/"}, "rtsp://other/y/t"); !got["rtsp://other/y/t"] || len(got) != 1 {
+		t.Fatalf("%v", got)
+	}
+}
+
+func TestStrictSetup(t *testing.T) {
+	sc := Script{SDP: sessionLevel + "m=video 0 RTP/AVP 96\r\na=control:streamid=0\r\n", StrictSetup: true, ContentBase: "noslash"}
+	cam, _ := Start(sc)
+	defer cam.Close()
+	m := dial(t, cam)
+	defer m.nc.Close()
+	base := "rtsp://" + cam.HostPort() + "/live/ch1"
+	m.do("OPTIONS", base, "")
+	_, hdr, _, _ := m.do("DESCRIBE", base, "")
+	if hdr["content-base"] != base {
+		t.Fatalf("Content-Base %q", hdr["content-base"])
+	}
+	tr := "Transport: RTP/AVP/TCP;unicast;interleaved=0-1\r\n"
+	if code, _, _, _ := m.do("SETUP", base+"streamid=0", tr); code != 404 {
+		t.Fatalf("glued URL accepted: %d", code)
+	}
+	if code, _, _, _ := m.do("SETUP", base+"/other", tr); code != 404 {
+		t.Fatalf("foreign URL accepted: %d", code)
+	}
+	if code, _, _, _ := m.do("SETUP", base+"/streamid=0", tr); code != 200 {
+		t.Fatalf("proper URL refused: %d", code)
+	}
+}
